@@ -1,47 +1,95 @@
 /* C04 (+C05/C06 for vectors): replays VecBag.tla scripts on one of the three vector classes.
- * usage: vector_replay <array|linked_list|dlinked_list> <NE> <scriptfile> [first]
- * Elements 1..NE are spif_str objects; probes 0 and NE+1 lie below / above every storable element.
- * Equal elements are compared by value, never by identity.
+ * usage: vector_replay <array|linked_list|dlinked_list> <NE> <enc> <kind> <full|compact> <scriptfile> [first]
+ * Elements 1..NE; probes 0 and NE+1 lie below / above every storable element.
+ * enc:  text family of the str objects (c03_util.h: 0 digits, 1 first byte sweeps 1..255, 2 last byte sweeps 1..255,
+ *       -1 chosen per script from its id).
+ * kind: 0 an element is a spif_str; 1 an element is objpair(str value, str TAG) with a tag unique per inserted element:
+ *       such elements compare EQUAL under comp when their values are equal yet stay distinguishable; -1 per script.
+ *       Tags are bookkeeping of the harness (which objects does the vector own), not part of the compared state:
+ *       after every step the tags found in a slot must be exactly those inserted and not handed back, remove/find must
+ *       hand out a stored element, and a dup must equal the original slot by slot INCLUDING the tags.
+ * full: the read-back probes find/contains of EVERY value 0..NE+1 after every step (small universes).
+ * compact: (size sweeps) probes at the position classes first / second / middle / next-to-last / last / absent.
+ * Equal elements are compared by value, never by object identity.
  * State token: {a=[..],b={live=T|F,s=[..]},it=n}
  */
 #include "common.h"
 #include "c03_util.h"
 
 static long NE = 3;
+static int compact = 0;
+static int kind = 0, kind_arg = 0;
 static spif_vector_t A, B;
 static spif_iterator_t IT;
 static int it_count;          /* mirror: number of next() calls that yielded, capped like the spec */
+
+/* tag bookkeeping (kind 1): which tags does each slot own */
+#define MAXTAG (1 << 16)
+static unsigned char tagA[MAXTAG], tagB[MAXTAG];
+static long next_tag;
 
 static spif_vector_t new_vector(void) {
     if (cu_is("array")) return SPIF_VECTOR_NEW(array);
     if (cu_is("linked_list")) return SPIF_VECTOR_NEW(linked_list);
     return SPIF_VECTOR_NEW(dlinked_list);
 }
+/* an element to store (tag > 0) or a probe (tag 0) */
+static spif_obj_t mk_elem(long v, long tag) {
+    spif_obj_t s = cu_mk(v), t, p;
+    char tt[32];
+    if (!kind) return s;
+    snprintf(tt, sizeof(tt), "%ld", tag);
+    t = SPIF_OBJ(spif_str_new_from_ptr((spif_charptr_t) tt));
+    p = SPIF_OBJ(spif_objpair_new_from_both(s, t));
+    SPIF_OBJ_DEL(s); SPIF_OBJ_DEL(t);
+    return p;
+}
+static long elem_val(spif_obj_t o) {
+    if (SPIF_OBJ_ISNULL(o)) return 0;
+    if (!kind) return cu_val(o);
+    if (!SPIF_OBJ_IS_OBJPAIR(o)) return -1000001;
+    return cu_val(SPIF_OBJPAIR(o)->key);
+}
+static long elem_tag(spif_obj_t o) {
+    const char *s;
+    if (!kind || SPIF_OBJ_ISNULL(o) || !SPIF_OBJ_IS_OBJPAIR(o) || SPIF_OBJ_ISNULL(SPIF_OBJPAIR(o)->value)) return -1;
+    s = (const char *) SPIF_STR_STR(SPIF_STR(SPIF_OBJPAIR(o)->value));
+    return s ? atol(s) : -1;
+}
 static long elem_ordkey(spif_obj_t data, const char **msg) {
-    long v = cu_val(data);
+    long v = elem_val(data);
     if (v < 1 || v > NE) *msg = "element_outside_the_universe";
     return v;
 }
 
 /* full read-back of a vector through the public interface + representation invariants */
-static const char *readback(spif_vector_t V, const char *which, vh_sb *out) {
-    static long vals[1 << 14];
-    static long cnt[1 << 14];
-    long n = (long) SPIF_VECTOR_COUNT(V), i, e;
+static const char *readback(spif_vector_t V, const char *which, unsigned char *tags, vh_sb *out) {
+    static long vals[1 << 15];
+    static long cnt[1 << 15];
+    static unsigned char seen[MAXTAG];
+    long n = (long) SPIF_VECTOR_COUNT(V), i, e, npr = 0, q;
+    long probes[16];
     spif_iterator_t it;
     spif_obj_t *arr;
     const char *inv;
 
-    if (n < 0 || n > 16000) CU_FAIL("%s:count=%ld", which, n);
+    if (n < 0 || n >= (1 << 15)) CU_FAIL("%s:count=%ld", which, n);
     /* a fresh iterator yields count elements and reports exhaustion exactly then */
     it = SPIF_VECTOR_ITERATOR(V);
     if (SPIF_ITERATOR_ISNULL(it)) CU_FAIL("%s:iterator()=NULL", which);
+    if (kind) memset(seen, 0, (size_t) (next_tag + 1 < MAXTAG ? next_tag + 1 : MAXTAG));
     for (i = 0; i < n; i++) {
         spif_obj_t o;
         if (!SPIF_ITERATOR_HAS_NEXT(it)) { SPIF_ITERATOR_DEL(it); CU_FAIL("%s:iter_has_next_false_at_%ld_of_%ld", which, i, n); }
         o = SPIF_ITERATOR_NEXT(it);
         if (SPIF_OBJ_ISNULL(o)) { SPIF_ITERATOR_DEL(it); CU_FAIL("%s:iter_next=NULL_at_%ld_of_%ld", which, i, n); }
-        vals[i] = cu_val(o);
+        vals[i] = elem_val(o);
+        if (kind) {
+            long t = elem_tag(o);
+            if (t < 1 || t >= MAXTAG || !tags[t]) { SPIF_ITERATOR_DEL(it); CU_FAIL("%s:holds_an_element_it_does_not_own(tag)", which); }
+            if (seen[t]) { SPIF_ITERATOR_DEL(it); CU_FAIL("%s:holds_the_same_element_twice(tag)", which); }
+            seen[t] = 1;
+        }
     }
     if (SPIF_ITERATOR_HAS_NEXT(it)) { SPIF_ITERATOR_DEL(it); CU_FAIL("%s:iter_has_next_true_after_%ld", which, n); }
     if (!SPIF_OBJ_ISNULL(SPIF_ITERATOR_NEXT(it))) { SPIF_ITERATOR_DEL(it); CU_FAIL("%s:iter_next_after_end!=NULL", which); }
@@ -50,64 +98,166 @@ static const char *readback(spif_vector_t V, const char *which, vh_sb *out) {
     for (i = 0; i < n; i++) { if (i) sb_putc(out, ','); sb_int(out, vals[i]); }
     sb_putc(out, ']');
     for (i = 1; i < n; i++) if (vals[i - 1] > vals[i]) CU_FAIL("%s:iteration_not_ascending_at_%ld", which, i);
+    if (kind) {
+        long t, owned = 0;
+        for (t = 1; t <= next_tag && t < MAXTAG; t++) if (tags[t]) owned++;
+        if (owned != n) CU_FAIL("%s:lost_an_element_it_owns(tags_owned=%ld_found=%ld)", which, owned, n);
+    }
     /* to_array gives the same sequence */
     arr = SPIF_VECTOR_TO_ARRAY(V);
     if (n > 0 && !arr) CU_FAIL("%s:to_array=NULL", which);
     for (i = 0; i < n; i++) {
-        if (cu_val(arr[i]) != vals[i]) { FREE(arr); CU_FAIL("%s:to_array_mismatch_at_%ld", which, i); }
+        if (elem_val(arr[i]) != vals[i]) { FREE(arr); CU_FAIL("%s:to_array_mismatch_at_%ld", which, i); }
     }
     if (arr) FREE(arr);
-    /* find / contains of every element value, of a probe below the minimum and of one above the maximum */
-    memset(cnt, 0, sizeof(long) * (size_t) (NE + 2));
-    for (i = 0; i < n; i++) if (vals[i] >= 0 && vals[i] <= NE + 1) cnt[vals[i]]++;
-    for (e = 0; e <= NE + 1; e++) {
-        spif_obj_t probe = cu_mk(e), r = SPIF_VECTOR_FIND(V, probe);
-        spif_bool_t c = SPIF_VECTOR_CONTAINS(V, probe);
-        long rv = cu_val(r);
-        SPIF_OBJ_DEL(probe);
-        if (cnt[e] && SPIF_OBJ_ISNULL(r)) CU_FAIL("%s:find_misses_a_present_element(%s)", which, e == vals[0] ? "minimum" : (e == vals[n - 1] ? "maximum" : "inner"));
-        if (!cnt[e] && !SPIF_OBJ_ISNULL(r)) CU_FAIL("%s:find_returns_something_for_an_absent_probe", which);
-        if (cnt[e] && rv != e) CU_FAIL("%s:find_returns_an_unequal_element", which);
-        if ((c ? 1 : 0) != (cnt[e] ? 1 : 0)) CU_FAIL("%s:contains_disagrees_with_iteration", which);
+    /* find / contains */
+    if (!compact) {
+        /* of every element value, of a probe below the minimum and of one above the maximum */
+        memset(cnt, 0, sizeof(long) * (size_t) (NE + 2));
+        for (i = 0; i < n; i++) if (vals[i] >= 0 && vals[i] <= NE + 1) cnt[vals[i]]++;
+        for (e = 0; e <= NE + 1; e++) {
+            spif_obj_t probe = mk_elem(e, 0), r = SPIF_VECTOR_FIND(V, probe);
+            spif_bool_t c = SPIF_VECTOR_CONTAINS(V, probe);
+            long rv = elem_val(r);
+            SPIF_OBJ_DEL(probe);
+            if (cnt[e] && SPIF_OBJ_ISNULL(r)) CU_FAIL("%s:find_misses_a_present_element(%s)", which, e == vals[0] ? "minimum" : (e == vals[n - 1] ? "maximum" : "inner"));
+            if (!cnt[e] && !SPIF_OBJ_ISNULL(r)) CU_FAIL("%s:find_returns_something_for_an_absent_probe", which);
+            if (cnt[e] && rv != e) CU_FAIL("%s:find_returns_an_unequal_element", which);
+            if (cnt[e] && kind && (elem_tag(r) < 1 || !tags[elem_tag(r)])) CU_FAIL("%s:find_returns_an_element_not_stored(tag)", which);
+            if ((c ? 1 : 0) != (cnt[e] ? 1 : 0)) CU_FAIL("%s:contains_disagrees_with_iteration", which);
+        }
+    } else {
+        /* at the position classes and at absent probes below / between / above */
+        static const char *pc[] = {"minimum", "second", "middle", "next_to_last", "maximum"};
+        long pos[5], gap = -1;
+        for (i = 1; i < n && gap < 0; i++) if (vals[i] > vals[i - 1] + 1) gap = vals[i - 1] + 1;
+        if (n > 0) {
+            pos[0] = 0; pos[1] = n > 1 ? 1 : 0; pos[2] = n / 2; pos[3] = n > 1 ? n - 2 : 0; pos[4] = n - 1;
+            for (q = 0; q < 5; q++) {
+                spif_obj_t probe = mk_elem(vals[pos[q]], 0), r = SPIF_VECTOR_FIND(V, probe);
+                spif_bool_t c = SPIF_VECTOR_CONTAINS(V, probe);
+                SPIF_OBJ_DEL(probe);
+                if (SPIF_OBJ_ISNULL(r) || !c) CU_FAIL("%s:find_misses_a_present_element(%s)", which, pc[q]);
+                if (elem_val(r) != vals[pos[q]]) CU_FAIL("%s:find_returns_an_unequal_element", which);
+                if (kind && (elem_tag(r) < 1 || !tags[elem_tag(r)])) CU_FAIL("%s:find_returns_an_element_not_stored(tag)", which);
+            }
+        }
+        probes[npr++] = 0; probes[npr++] = NE + 1;
+        if (gap > 0) probes[npr++] = gap;
+        if (n > 0 && vals[0] > 1) probes[npr++] = vals[0] - 1;
+        if (n > 0 && vals[n - 1] < NE) probes[npr++] = vals[n - 1] + 1;
+        for (q = 0; q < npr; q++) {
+            spif_obj_t probe = mk_elem(probes[q], 0), r = SPIF_VECTOR_FIND(V, probe);
+            spif_bool_t c = SPIF_VECTOR_CONTAINS(V, probe);
+            SPIF_OBJ_DEL(probe);
+            if (!SPIF_OBJ_ISNULL(r) || c) CU_FAIL("%s:find_returns_something_for_an_absent_probe", which);
+        }
     }
     /* representation */
     if ((inv = cu_walk(V, n, which, elem_ordkey, 0))) return inv;
     return NULL;
 }
 
-static void vh_begin(void) { A = new_vector(); B = (spif_vector_t) NULL; IT = (spif_iterator_t) NULL; it_count = -1; }
+/* C05: immediately after dup the copy equals the original slot by slot: same values AND (kind 1) copies of the very
+ * same elements in the very same slots */
+static const char *dup_slots_equal(void) {
+    long n = (long) SPIF_VECTOR_COUNT(A), m = (long) SPIF_VECTOR_COUNT(B), i;
+    spif_obj_t *x, *y;
+    const char *bad = NULL;
+    if (n != m) return "dup_count_differs";
+    x = SPIF_VECTOR_TO_ARRAY(A); y = SPIF_VECTOR_TO_ARRAY(B);
+    for (i = 0; i < n && !bad; i++) {
+        if (x[i] == y[i]) bad = "dup_shares_an_element_object_with_the_original";
+        else if (elem_val(x[i]) != elem_val(y[i])) bad = "dup_slot_holds_a_different_value";
+        else if (kind && elem_tag(x[i]) != elem_tag(y[i])) bad = "dup_slot_holds_a_copy_of_a_different_(equal)_element";
+    }
+    if (x) FREE(x);
+    if (y) FREE(y);
+    return bad;
+}
+
+static void vh_begin(void) {
+    cu_begin_script(vh_cur_sid);
+    kind = kind_arg >= 0 ? kind_arg : (int) ((vh_cur_sid / 3) % 2);
+    A = new_vector(); B = (spif_vector_t) NULL; IT = (spif_iterator_t) NULL; it_count = -1;
+    if (kind) { memset(tagA, 0, sizeof(tagA)); memset(tagB, 0, sizeof(tagB)); }
+    next_tag = 0;
+}
 static void vh_end(void) {
     if (!SPIF_ITERATOR_ISNULL(IT)) { SPIF_ITERATOR_DEL(IT); IT = (spif_iterator_t) NULL; }
     if (!SPIF_VECTOR_ISNULL(B)) { SPIF_VECTOR_DEL(B); B = (spif_vector_t) NULL; }
     if (!SPIF_VECTOR_ISNULL(A)) { SPIF_VECTOR_DEL(A); A = (spif_vector_t) NULL; }
 }
 
+static const char *do_insert(spif_vector_t V, unsigned char *tags, long v, spif_bool_t *res) {
+    spif_obj_t e;
+    if (next_tag + 1 >= MAXTAG) return "harness:too_many_elements";
+    next_tag++;
+    e = mk_elem(v, next_tag);
+    *res = SPIF_VECTOR_INSERT(V, e);
+    if (!*res) SPIF_OBJ_DEL(e);          /* refused: the element is still the caller's */
+    else tags[next_tag] = 1;
+    return NULL;
+}
+/* the vector handed an element back to the caller */
+static const char *take_back(unsigned char *tags, spif_obj_t r) {
+    long t;
+    if (!kind || SPIF_OBJ_ISNULL(r)) return NULL;
+    t = elem_tag(r);
+    if (t < 1 || t >= MAXTAG || !tags[t]) return "remove_returned_an_element_that_was_not_stored(tag)";
+    tags[t] = 0;
+    return NULL;
+}
+
 #define OP(s) (!strcmp(op, s))
 static const char *vh_step(const vh_step_t *st, vh_sb *ret, vh_sb *state) {
     const char *op = st->op, *inv;
     spif_vector_t V = A;
-    if (op[0] == 'b' && op[1] == '_') { V = B; op += 2; if (OP("del")) op = "b_del"; }
+    unsigned char *tags = tagA;
+    if (op[0] == 'b' && op[1] == '_') { V = B; tags = tagB; op += 2; if (OP("del")) op = "b_del"; }
 
     if (OP("insert")) {
-        spif_obj_t e = cu_mk(vh_int(st->args[0]));
-        spif_bool_t r = SPIF_VECTOR_INSERT(V, e);
-        if (!r) SPIF_OBJ_DEL(e);          /* refused: the element is still the caller's */
+        spif_bool_t r;
+        if ((inv = do_insert(V, tags, vh_int(st->args[0]), &r))) return inv;
         sb_bool(ret, r);
+    } else if (OP("fill")) {
+        long lo = vh_int(st->args[0]), hi = vh_int(st->args[1]), stp = vh_int(st->args[2]), v, k = 0;
+        if (stp < 1) return "fill:bad_step";
+        for (v = lo; v <= hi; v += stp) {
+            spif_bool_t r;
+            if ((inv = do_insert(V, tags, v, &r))) return inv;
+            if (r) k++;
+        }
+        sb_int(ret, k);
     } else if (OP("remove")) {
-        spif_obj_t probe = cu_mk(vh_int(st->args[0])), r = SPIF_VECTOR_REMOVE(V, probe);
-        sb_int(ret, cu_val(r));
+        spif_obj_t probe = mk_elem(vh_int(st->args[0]), 0), r = SPIF_VECTOR_REMOVE(V, probe);
+        sb_int(ret, elem_val(r));
         if (r == probe) { SPIF_OBJ_DEL(probe); return "remove_returned_the_probe_object"; }
+        inv = take_back(tags, r);
         if (!SPIF_OBJ_ISNULL(r)) SPIF_OBJ_DEL(r);   /* handed back: the caller's to delete */
         SPIF_OBJ_DEL(probe);
+        if (inv) return inv;
+    } else if (OP("remove_own")) {
+        /* aliased argument: the probe IS the stored element */
+        spif_obj_t probe = mk_elem(vh_int(st->args[0]), 0), own = SPIF_VECTOR_FIND(V, probe), r;
+        SPIF_OBJ_DEL(probe);
+        if (SPIF_OBJ_ISNULL(own)) return "remove_own:element_absent";
+        r = SPIF_VECTOR_REMOVE(V, own);
+        sb_int(ret, elem_val(r));
+        inv = take_back(tags, r);
+        if (!SPIF_OBJ_ISNULL(r)) SPIF_OBJ_DEL(r);
+        if (inv) return inv;
     } else if (OP("done")) {
         sb_bool(ret, SPIF_VECTOR_DONE(V));
+        if (kind) memset(tags, 0, MAXTAG);
     } else if (OP("find")) {
-        spif_obj_t probe = cu_mk(vh_int(st->args[0])), r = SPIF_VECTOR_FIND(V, probe);
-        sb_int(ret, cu_val(r));
+        spif_obj_t probe = mk_elem(vh_int(st->args[0]), 0), r = SPIF_VECTOR_FIND(V, probe);
+        sb_int(ret, elem_val(r));
         if (r == probe) { SPIF_OBJ_DEL(probe); return "find_returned_the_probe_object"; }
         SPIF_OBJ_DEL(probe);
+        if (kind && !SPIF_OBJ_ISNULL(r) && (elem_tag(r) < 1 || !tags[elem_tag(r)])) return "find_returned_an_element_not_stored(tag)";
     } else if (OP("contains")) {
-        spif_obj_t probe = cu_mk(vh_int(st->args[0]));
+        spif_obj_t probe = mk_elem(vh_int(st->args[0]), 0);
         sb_bool(ret, SPIF_VECTOR_CONTAINS(V, probe));
         SPIF_OBJ_DEL(probe);
     } else if (OP("count")) {
@@ -115,7 +265,7 @@ static const char *vh_step(const vh_step_t *st, vh_sb *ret, vh_sb *state) {
     } else if (OP("to_array")) {
         long n = (long) SPIF_VECTOR_COUNT(V), i; spif_obj_t *arr = SPIF_VECTOR_TO_ARRAY(V);
         sb_putc(ret, '[');
-        for (i = 0; i < n && arr; i++) { if (i) sb_putc(ret, ','); sb_int(ret, cu_val(arr[i])); }
+        for (i = 0; i < n && arr; i++) { if (i) sb_putc(ret, ','); sb_int(ret, elem_val(arr[i])); }
         sb_putc(ret, ']');
         if (arr) FREE(arr);
     } else if (OP("iter_new")) {
@@ -125,7 +275,7 @@ static const char *vh_step(const vh_step_t *st, vh_sb *ret, vh_sb *state) {
         sb_bool(ret, SPIF_ITERATOR_HAS_NEXT(IT));
     } else if (OP("iter_next")) {
         long n = (long) SPIF_VECTOR_COUNT(A);
-        sb_int(ret, cu_val(SPIF_ITERATOR_NEXT(IT)));
+        sb_int(ret, elem_val(SPIF_ITERATOR_NEXT(IT)));
         if (it_count <= n) it_count++;
     } else if (OP("iter_del")) {
         sb_bool(ret, SPIF_ITERATOR_DEL(IT)); IT = (spif_iterator_t) NULL; it_count = -1;
@@ -135,23 +285,27 @@ static const char *vh_step(const vh_step_t *st, vh_sb *ret, vh_sb *state) {
         if (B == A) return "dup_returned_same_object";
         if (SPIF_OBJ_CLASS(B) != SPIF_OBJ_CLASS(A)) return "dup_class_differs";
         if (strcmp((const char *) SPIF_VECTOR_TYPE(B), (const char *) SPIF_VECTOR_TYPE(A))) return "dup_type_differs";
+        if (kind) memcpy(tagB, tagA, MAXTAG);
+        if ((inv = dup_slots_equal())) return inv;
         sb_bool(ret, 1);
     } else if (OP("b_del")) {
         sb_bool(ret, SPIF_VECTOR_DEL(B)); B = (spif_vector_t) NULL;
+        if (kind) memset(tagB, 0, MAXTAG);
     } else if (OP("adopt")) {
         spif_bool_t r = SPIF_VECTOR_DEL(A); A = B; B = (spif_vector_t) NULL;
+        if (kind) { memcpy(tagA, tagB, MAXTAG); memset(tagB, 0, MAXTAG); }
         sb_bool(ret, r);
     } else {
         CU_FAIL("unknown_op_%s", op);
     }
 
     sb_puts(state, "{a=");
-    if ((inv = readback(A, "a", state))) return inv;
+    if ((inv = readback(A, "a", tagA, state))) return inv;
     sb_puts(state, ",b={live=");
     if (SPIF_VECTOR_ISNULL(B)) sb_puts(state, "F,s=[]}");
     else {
         sb_puts(state, "T,s=");
-        if ((inv = readback(B, "b", state))) return inv;
+        if ((inv = readback(B, "b", tagB, state))) return inv;
         sb_putc(state, '}');
     }
     sb_printf(state, ",it=%d}", it_count);
@@ -159,11 +313,16 @@ static const char *vh_step(const vh_step_t *st, vh_sb *ret, vh_sb *state) {
 }
 
 int main(int argc, char **argv) {
-    if (argc < 4) { fprintf(stderr, "usage: %s <class> <NE> <scripts> [first]\n", argv[0]); return 2; }
+    if (argc < 7) { fprintf(stderr, "usage: %s <class> <NE> <enc> <kind> <full|compact> <scripts> [first]\n", argv[0]); return 2; }
     cu_cls = argv[1];
     NE = atol(argv[2]);
-    if (NE < 1 || NE > 16000) { fprintf(stderr, "bad NE\n"); return 2; }
+    cu_enc_arg = atoi(argv[3]);
+    kind_arg = atoi(argv[4]);
+    compact = !strcmp(argv[5], "compact");
+    if (NE < 1 || NE > 32000 || (!compact && NE > 16000)) { fprintf(stderr, "bad NE\n"); return 2; }
+    if (cu_enc_arg == 2 && NE > 253) { fprintf(stderr, "family 2 needs NE <= 253\n"); return 2; }
+    cu_N = NE;
     libast_set_program_name("vector_replay");
     DEBUG_LEVEL = 0;
-    return vh_main(argc, argv, 3);
+    return vh_main(argc, argv, 6);
 }
